@@ -5,6 +5,21 @@ from __future__ import annotations
 import re
 
 _HDR = re.compile(r"^\s*-> (.*?) ?(\d+):(-?\d+)$")
+_BASE: list = []
+
+
+def column_base():
+    """0 or 1: the column error_context() reports for offset 0 of a non-empty one-line text (the base the
+    implementation uses); None if it is neither, in which case both bases are tolerated."""
+    if not _BASE:
+        from pest.exceptions import error_context
+
+        try:
+            b = error_context("x", 0)[2]
+        except Exception:  # noqa: BLE001
+            b = None
+        _BASE.append(b if b in (0, 1) else None)
+    return _BASE[0]
 
 
 def check_error(err, call, info) -> list[str]:
@@ -46,11 +61,13 @@ def check_error(err, call, info) -> list[str]:
         want_col0 = p - sol
         eol = text.find("\n", p)
         want_src = text[sol:] if eol == -1 else text[sol:eol]
+        base = column_base()
+        cols = (want_col0, want_col0 + 1) if base is None else (want_col0 + base,)
         try:
             line, lineno, col = error_context(text, p)
             if lineno != want_line:
                 bad(f"error_context line {lineno}, offset {p} is on line {want_line}")
-            elif col not in (want_col0, want_col0 + 1):
+            elif col not in cols:
                 bad(f"error_context column {col}, offset {p} is at column {want_col0} (0-based)")
             if line.rstrip() != want_src.rstrip():
                 bad(f"error_context shows line {line!r}, the line of offset {p} is {want_src!r}")
@@ -65,7 +82,7 @@ def check_error(err, call, info) -> list[str]:
                 lineno, col = int(hdr.group(2)), int(hdr.group(3))
                 if lineno != want_line:
                     bad(f"message says line {lineno}, offset {p} is on line {want_line}")
-                elif col not in (want_col0, want_col0 + 1):
+                elif col not in cols:
                     bad(f"message says column {col}, offset {p} is at column {want_col0} (0-based)")
                 src = next((ln for ln in lines if ln.startswith(f"{lineno} | ")), None)
                 if src is None:
